@@ -137,6 +137,7 @@ Definition setting_shape_ok (s : sensor) : bool :=
   | KInteger | KIntegerS => s_size s =? 2
   | KByteH | KByteL => s_size s =? 1
   | KDecimal sc => (s_size s =? 2) && ((sc =? 10) || (sc =? 100) || (sc =? 1000))
+  | KLong => s_size s =? 4
   | _ => true end.
 
 Definition modbus_settings : list sensor :=
@@ -146,7 +147,7 @@ Lemma generated_settings_shape : forallb setting_shape_ok modbus_settings = true
 Proof. vm_compute. reflexivity. Qed.
 
 Definition covered (s : sensor) : bool :=
-  match s_kind s with KInteger | KIntegerS | KByteH | KByteL | KDecimal _ => true | _ => false end.
+  match s_kind s with KInteger | KIntegerS | KByteH | KByteL | KDecimal _ | KLong => true | _ => false end.
 
 (* how many settings of the generated tables the theorems above cover (the rest -- multi-register groups, timestamps, values scaled by 10 --
    is left to the write/read-back monitor) *)
@@ -155,3 +156,70 @@ Definition coverage : nat * nat := (List.length (filter covered modbus_settings)
 (* the shapes emitted from the current source of ET / DT._write_setting satisfy what the theorems assume *)
 Lemma generated_shapes_ok : shape_ok et_ws /\ shape_ok dt_ws.
 Proof. unfold shape_ok. cbn. lia. Qed.
+
+(* ---------------------------------------------------------------- multi-register writes on the register file *)
+Lemma rf_write_bytes_frame : forall bs r a x, x < a -> rf_write_bytes r a bs x = r x.
+Proof.
+  fix IH 1. intros [|hi [|lo tl]] r a x Hx; cbn [rf_write_bytes]; auto.
+  rewrite IH by lia. replace (x =? a) with false by lia. reflexivity.
+Qed.
+
+Lemma rf_bytes_write_bytes n : forall bs r a, List.length bs = (2 * n)%nat -> Forall (fun b => 0 <= b < 256) bs ->
+  rf_bytes (rf_write_bytes r a bs) a n = bs.
+Proof.
+  induction n as [|n IH]; intros bs r a Hl Hb.
+  - destruct bs; [reflexivity | discriminate].
+  - destruct bs as [|hi [|lo tl]]; try (cbn in Hl; lia). cbn [rf_write_bytes rf_bytes].
+    inversion Hb as [|? ? Hhi Hb']; subst. inversion Hb' as [|? ? Hlo Hb'']; subst.
+    rewrite rf_write_bytes_frame by lia. cbn beta. rewrite Z.eqb_refl. destruct (word_bytes hi lo Hhi Hlo) as [-> ->].
+    f_equal. f_equal. apply IH; auto. cbn in Hl. lia.
+Qed.
+
+(* ---------------------------------------------------------------- a 4-byte unsigned setting (Long) written and read back *)
+Lemma to_bytes_u32 v : 0 <= v < 4294967296 ->
+  to_bytes_big v 4 false = Ok [(v / 16777216) mod 256; (v / 65536) mod 256; (v / 256) mod 256; v mod 256].
+Proof.
+  intros H. unfold to_bytes_big. change (2 ^ (8 * 4)) with 4294967296.
+  replace ((0 <=? v) && (v <? 4294967296)) with true by lia.
+  change (Z.to_nat 4) with 4%nat. cbn [be_digits].
+  change (256 ^ Z.of_nat 3) with 16777216. change (256 ^ Z.of_nat 2) with 65536. change (256 ^ Z.of_nat 1) with 256. change (256 ^ Z.of_nat 0) with 1.
+  rewrite Z.div_1_r. reflexivity.
+Qed.
+
+Lemma u_at_four a b c d : u_at [a; b; c; d] 0 4 = ((a * 256 + b) * 256 + c) * 256 + d.
+Proof. reflexivity. Qed.
+
+Lemma digits32 v : 0 <= v < 4294967296 ->
+  ((((v / 16777216) mod 256) * 256 + (v / 65536) mod 256) * 256 + (v / 256) mod 256) * 256 + v mod 256 = v.
+Proof.
+  intros H.
+  pose proof (Z.div_mod v 256 ltac:(lia)) as H0.
+  pose proof (Z.div_mod (v / 256) 256 ltac:(lia)) as H1.
+  pose proof (Z.div_mod (v / 256 / 256) 256 ltac:(lia)) as H2.
+  rewrite !Z.div_div in * by lia. change (256 * 256) with 65536 in *. change (65536 * 256) with 16777216 in *.
+  assert (v / 16777216 < 256) by (apply Z.div_lt_upper_bound; lia). assert (0 <= v / 16777216) by (apply Z.div_pos; lia).
+  rewrite (Z.mod_small (v / 16777216)) by lia. lia.
+Qed.
+
+Definition shape_ok2 (sh : ws_shape) : Prop := ws_rmw_size sh = 1 /\ ws_single_max sh = 2.
+
+Theorem write_read_long sh r s v : shape_ok2 sh -> s_kind s = KLong -> s_size s = 4 -> 0 <= v < 4294967295 ->
+  exists r', write_setting sh r s (IInt v) = Ok (r', (s_offset s, 2)) /\ read_setting r' s = Ok (VInt v) /\
+             (forall x, x < s_offset s \/ s_offset s + 2 <= x -> r' x = r x).
+Proof.
+  intros [Hr Hm] Hk Hs Hv. unfold write_setting. rewrite Hs, Hr, Hk. cbn [Z.eqb Pos.eqb encode_value in_int bind].
+  rewrite to_bytes_u32 by lia. cbv beta iota.
+  set (bs := [(v / 16777216) mod 256; (v / 65536) mod 256; (v / 256) mod 256; v mod 256]).
+  change (blen bs) with 4. rewrite Hm. cbn [Z.leb Z.compare Pos.compare Pos.compare_cont]. change (4 / 2) with 2.
+  eexists. split; [reflexivity|]. split.
+  - unfold read_setting, read_count. rewrite Hs. change (Z.to_nat ((4 + 4 mod 2) / 2)) with 2%nat.
+    assert (Hb : Forall (fun b => 0 <= b < 256) bs) by (unfold bs; repeat constructor; apply Z.mod_pos_bound; lia).
+    rewrite (rf_bytes_write_bytes 2 bs r (s_offset s) eq_refl Hb).
+    unfold sensor_read. rewrite Hk. cbn [s_offset]. unfold bs. rewrite u_at_four, digits32 by lia.
+    replace (v =? 4294967295) with false by lia. reflexivity.
+  - intros x Hx. unfold bs. cbn [rf_write_bytes].
+    destruct (x =? s_offset s + 1) eqn:E1; [lia|]. destruct (x =? s_offset s) eqn:E0; [lia|]. reflexivity.
+Qed.
+
+Lemma generated_shapes_ok2 : shape_ok2 et_ws /\ shape_ok2 dt_ws.
+Proof. split; split; reflexivity. Qed.
